@@ -16,8 +16,8 @@ import (
 // expressions, functions, exceptions) and of the class/closure generator in clsgen.go.
 func randomCases(e *lib.Env, off func(string) bool) []*pcase {
 	var out []*pcase
-	nGen := e.Pick(160, 6000)
-	nCls := e.Pick(120, 4000)
+	nGen := e.Pick(160, 1500)
+	nCls := e.Pick(120, 1500)
 	r := e.Rand("gen")
 	for i := 0; i < nGen; i++ {
 		exc := r.Intn(2) == 0
@@ -34,23 +34,13 @@ func randomCases(e *lib.Env, off func(string) bool) []*pcase {
 			fs = append(fs, "gen."+f)
 		}
 		sort.Strings(fs)
-		if exc {
-			fs = append(fs, "exceptions")
-		}
-		if len(p.Classes) > 0 {
-			fs = append(fs, "class")
-			for _, c := range p.Classes {
-				if c.Interface {
-					fs = append(fs, "interface")
-					break
-				}
-			}
-		}
+		fs = append(fs, syntacticFeatures(src)...)
 		out = append(out, &pcase{Name: fmt.Sprintf("gen/%d", i), Family: "gen", Rel: fmt.Sprintf("gen/g%05d.php", i), Src: src, Features: fs})
 	}
 	r2 := e.Rand("cls")
 	for i := 0; i < nCls; i++ {
 		src, fs := genClassProgram(r2, i, off)
+		fs = append(fs, syntacticFeatures(src)...)
 		out = append(out, &pcase{Name: fmt.Sprintf("cls/%d", i), Family: "cls", Rel: fmt.Sprintf("cls/c%05d.php", i), Src: src, Features: fs})
 	}
 	return out
@@ -68,60 +58,92 @@ var (
 	reClassDecl     = regexp.MustCompile(`(?m)^\s*(?:abstract\s+|final\s+|readonly\s+)*(class|interface|trait|enum)\s+[A-Za-z_]\w*`)
 )
 
-// corpusFeatures computes syntactic feature tags of a corpus file (for quarantine).
-func corpusFeatures(src string) []string {
+// syntacticFeatures computes, from the source text alone, the feature tags that open
+// findings may quarantine. One detector for every family (catalogue units, generated
+// programs, corpus files), so that a listed defect switches off exactly the sources that
+// contain its construct.
+func syntacticFeatures(src string) []string {
 	var fs []string
-	has := func(re string) bool { return regexp.MustCompile(re).MatchString(src) }
+	add := func(f string, re *regexp.Regexp) {
+		if re.MatchString(src) {
+			fs = append(fs, f)
+		}
+	}
 	decl := reClassDecl.MatchString(src)
 	if decl {
 		fs = append(fs, "class")
 		if !reNamespaceDecl.MatchString(src) {
 			fs = append(fs, "toplevel-class")
 		}
+		if reStaticMember.MatchString(src) {
+			fs = append(fs, "static-member")
+		}
+		if classWithoutOwnConstructor(src) {
+			fs = append(fs, "inherited-ctor")
+		}
 	}
-	if has(`(?m)^\s*interface\s+\w+`) {
-		fs = append(fs, "interface")
-	}
-	if has(`(?m)^\s*(final\s+)?abstract\s+class\s`) {
-		fs = append(fs, "abstract-class")
-	}
-	if has(`\babstract\s+(public\s+|protected\s+|static\s+)*function\b`) {
-		fs = append(fs, "abstract")
-	}
-	if has(`(?m)^\s*enum\s+\w+`) {
-		fs = append(fs, "enum")
-	}
-	if has(`(?m)^\s*trait\s+\w+`) {
-		fs = append(fs, "trait")
-	}
-	if decl && has(`(?m)^\s*(public\s+|protected\s+|private\s+|final\s+)*const\s+\w+\s*=`) {
-		fs = append(fs, "class-const")
-	}
-	if has(`\bstatic\s+(\??[\w\\|]+\s+)?\$\w+`) && decl {
-		fs = append(fs, "static-prop")
-	}
-	if has(`\buse\s*\([^)]*&\s*\$`) {
-		fs = append(fs, "closure-use-ref")
-	}
-	if has(`\bfunction\s*\(|\bfn\s*\(`) {
-		fs = append(fs, "closure")
-	}
-	if has(`\bnew\s+class\b`) {
-		fs = append(fs, "anon-class")
-	}
-	if has(`\byield\b`) {
-		fs = append(fs, "generator")
-	}
-	if has(`\bextends\s+\\?\w*(Exception|Error)\b`) {
-		fs = append(fs, "exception-subclass")
-	}
-	if has(`\b(include|require)(_once)?\b`) {
-		fs = append(fs, "include")
-	}
-	if has(`-0\.0\b`) {
-		fs = append(fs, "float-negzero")
-	}
+	add("interface", reFInterface)
+	add("abstract-method", reFAbstractMethod)
+	add("enum", reFEnum)
+	add("trait", reFTrait)
+	add("closure-use-ref", reFUseRef)
+	add("anon-class", reFAnonClass)
+	add("generator", reFYield)
+	add("include", reFInclude)
+	add("float-negzero", reFNegZero)
+	add("varvar", reFVarVar)
+	add("list-destructuring", reFListDestr)
+	add("var-class-const", reFVarClassConst)
+	add("dynamic-static", reFDynStatic)
+	add("multi-return", reFMultiReturn)
+	add("switch", reFSwitch)
 	return fs
+}
+
+var (
+	reStaticMember    = regexp.MustCompile(`(?m)^\s*(?:(?:public|protected|private|final)\s+)*const\s+\w+\s*=|\bstatic\s+(?:\??[\w\\|]+\s+)?\$\w+`)
+	reFInterface      = regexp.MustCompile(`(?m)^\s*interface\s+\w+`)
+	reFAbstractMethod = regexp.MustCompile(`\babstract\s+(?:public\s+|protected\s+|static\s+)*function\b`)
+	reFEnum           = regexp.MustCompile(`(?m)^\s*enum\s+\w+`)
+	reFTrait          = regexp.MustCompile(`(?m)^\s*trait\s+\w+`)
+	reFUseRef         = regexp.MustCompile(`\buse\s*\([^)]*&\s*\$`)
+	reFAnonClass      = regexp.MustCompile(`\bnew\s+class\b`)
+	reFYield          = regexp.MustCompile(`\byield\b`)
+	reFInclude        = regexp.MustCompile(`\b(?:include|require)(?:_once)?\b`)
+	reFNegZero        = regexp.MustCompile(`-\s*0\.0*\b|-\s*0e`)
+	reFVarVar         = regexp.MustCompile(`\$\$\w|\$\{`)
+	reFListDestr      = regexp.MustCompile(`(?:^|[;{}(\n])\s*\[[^\[\]=;]*\$\w+[^=;]*\]\s*=[^=>]|\bas\s*\[|\blist\s*\(`)
+	reFVarClassConst  = regexp.MustCompile(`\$\w+(?:->\w+)*::class\b`)
+	reFDynStatic      = regexp.MustCompile(`\$\w+(?:->\w+)*::\$?[A-Za-z_]`)
+	reFMultiReturn    = regexp.MustCompile(`\)\s*:\s*\??[\w\\]+\s*,\s*\??[\w\\]+`)
+	reFSwitch         = regexp.MustCompile(`\bswitch\s*\(`)
+	reClassHead       = regexp.MustCompile(`\bclass\s+\w+\s+extends\s+[\w\\]+[^{;]*\{`)
+)
+
+// classWithoutOwnConstructor: some class of the source extends another class and does not
+// declare __construct itself (it runs an inherited constructor).
+func classWithoutOwnConstructor(src string) bool {
+	for _, loc := range reClassHead.FindAllStringIndex(src, -1) {
+		depth, end := 1, -1
+		for i := loc[1]; i < len(src); i++ {
+			if src[i] == '{' {
+				depth++
+			} else if src[i] == '}' {
+				depth--
+				if depth == 0 {
+					end = i
+					break
+				}
+			}
+		}
+		if end < 0 {
+			end = len(src)
+		}
+		if !strings.Contains(src[loc[1]:end], "__construct") {
+			return true
+		}
+	}
+	return false
 }
 
 // corpusCases copies the repository's script corpus (tests/, examples/) below the batch
@@ -156,7 +178,7 @@ func corpusCases(e *lib.Env) []*pcase {
 			}
 			rel, _ := filepath.Rel(e.Repo, p)
 			src := string(b)
-			c := &pcase{Name: "corpus/" + rel, Family: "corpus", Rel: filepath.Join("corpus", rel), Src: src, Features: corpusFeatures(src)}
+			c := &pcase{Name: "corpus/" + rel, Family: "corpus", Rel: filepath.Join("corpus", rel), Src: src, Features: syntacticFeatures(src)}
 			if reCorpusDeny.MatchString(src) || strings.HasSuffix(rel, "run_tests.php") || len(src) > 200_000 {
 				c.NoRun = true
 				c.Features = nil
@@ -182,6 +204,38 @@ func corpusCases(e *lib.Env) []*pcase {
 		}
 		declared[c] = d
 	}
+	// All files of a batch are parsed by one VM, which keeps one class per name: two corpus
+	// files that declare the same class cannot share a batch. They are left out (not written).
+	fq := map[string]int{}
+	// (by short name: the parser also resolves an unqualified name to a global class that some
+	// other file of the batch happened to declare)
+	fqOf := func(c *pcase) []string {
+		var names []string
+		for n := range declared[c] {
+			names = append(names, strings.ToLower(n))
+		}
+		return names
+	}
+	for _, c := range out {
+		for _, n := range fqOf(c) {
+			fq[n]++
+		}
+	}
+	kept := out[:0]
+	for _, c := range out {
+		dup := false
+		for _, n := range fqOf(c) {
+			if fq[n] > 1 {
+				dup = true
+			}
+		}
+		if dup {
+			corpusDuplicateDecl++
+			continue
+		}
+		kept = append(kept, c)
+	}
+	out = kept
 	for _, c := range out {
 		if c.NoRun || declared[c] == nil {
 			continue
@@ -201,7 +255,9 @@ func corpusCases(e *lib.Env) []*pcase {
 	return out
 }
 
+var corpusDuplicateDecl int
+
 var (
 	reDeclName = regexp.MustCompile(`(?m)^\s*(?:abstract\s+|final\s+|readonly\s+)*(?:class|interface|trait|enum)\s+([A-Za-z_]\w*)`)
-	reClassRef = regexp.MustCompile(`(?:\bnew|\bextends|\bimplements|\binstanceof|\buse|,)\s+\\?(?:\w+\\)*([A-Za-z_]\w*)|\\?(?:\w+\\)*\b([A-Za-z_]\w*)::`)
+	reClassRef = regexp.MustCompile(`(?:\bnew|\bextends|\bimplements|\binstanceof|\blike|\buse|,|\bcatch\s*\()\s*\\?(?:\w+\\)*([A-Za-z_]\w*)|\\?(?:\w+\\)*\b([A-Za-z_]\w*)::`)
 )
